@@ -53,12 +53,19 @@ type zzHandler2 struct {
 	calls int
 	p     GetOParams
 	res   GetORes
+	s     GetSParams
 }
 
 func (h *zzHandler2) GetO(ctx context.Context, params GetOParams) (GetORes, error) {
 	h.calls++
 	h.p = params
 	return h.res, nil
+}
+
+func (h *zzHandler2) GetS(ctx context.Context, params GetSParams) error {
+	h.calls++
+	h.s = params
+	return nil
 }
 
 type zzMW2 struct {
@@ -267,4 +274,39 @@ func HGetO(part, l1, l2 int) {
 			zz.Assert(eqOptString2(got.XD, want.XD), "the caller receives the header of the default no-content response")
 		}
 	}
+}
+
+// HGetS: path parameters of array shape in the simple style (delimiter ',') and in the exploded matrix style
+// (delimiter ';'): the two items of one of them (mode) are l1 and l2 arbitrary bytes. Either the call fails on the client (allowed only outside the
+// core domain: an empty item or one containing the style's delimiter or a byte the path cannot carry), or the
+// handler receives exactly the items supplied - a value containing the delimiter must never arrive as more items.
+func HGetS(mode, l1, l2 int) {
+	h, mw := &zzHandler2{}, &zzMW2{}
+	c := zzPair2(h, mw)
+	p := GetSParams{Arr: []string{"a", "bc"}, Mo: []string{"m", "no"}}
+	if mode == 0 { // one of the two parameters is symbolic per case (both at once: > 40000 paths)
+		p.Arr = []string{zz.String(l1), zz.String(l2)}
+	} else {
+		p.Mo = []string{zz.String(l1), zz.String(l2)}
+	}
+	core := l1 > 0 && l2 > 0
+	for _, it := range append(append([]string(nil), p.Arr...), p.Mo...) {
+		for i := 0; i < len(it); i++ {
+			core = zz.And(core, zz.And(zz.And(it[i] > 0x20, it[i] < 0x7f), zz.And(zz.And(it[i] != ',', it[i] != ';'), zz.And(it[i] != '/', zz.And(it[i] != '%', it[i] != '=')))))
+		}
+	}
+	err := c.GetS(context.Background(), p)
+	if err != nil {
+		zz.Cover("gets-client-error")
+		zz.Assert(zz.Not(core), "core-domain path array items are always delivered (GetS)")
+		return
+	}
+	zz.Cover("gets-delivered")
+	zz.Assert(h.calls == 1, "a successful call ran the handler exactly once (GetS)")
+	g := h.s
+	okA := len(g.Arr) == 2 && len(g.Mo) == 2
+	if okA {
+		okA = zz.And(zz.And(zz.EqString(g.Arr[0], p.Arr[0]), zz.EqString(g.Arr[1], p.Arr[1])), zz.And(zz.EqString(g.Mo[0], p.Mo[0]), zz.EqString(g.Mo[1], p.Mo[1])))
+	}
+	zz.Assert(okA, "path array parameters arrive with exactly the items supplied (a delimiter inside an item is refused, never split)")
 }
